@@ -28,6 +28,10 @@ func checkC13(w *World, tier string) *Report {
 	addWriteOnceRule(w, r, "R11.5")
 	addFreshTracerRule(w, r, "R16.4")
 	addMonotoneIndexRule(w, r, "R10.8")
+	// the frame whose transfer is journaled is open when the transfer is made (shared with C07 R7.1): the call index
+	// the balances are filed under is this frame's, not its parent's
+	addR71(w, r, "R7.1")
+	r.Explanation += " R7.1 (shared with C07) the frame's call-tree node is opened before any early return — in particular before the value transfer — so the call index the balances are filed under is this frame's."
 	// R13.2
 	p := w.Pkgs[forkPath(pkVM)]
 	var bad []string
